@@ -1,7 +1,8 @@
 import Driver.Common
 import ScionTime.Model.ClientNtp
+import ScionTime.Model.ClientFlow
 import Driver.MainCtorOps
-open Driver ScionTime.Time64 ScionTime.NtpMath ScionTime.ClientNtp
+open Driver ScionTime.Time64 ScionTime.NtpMath ScionTime.ClientNtp ScionTime.ClientFlow
 
 /-! Driver for the NTP client model (properties C03 and C05; harness command `c03`).
 ops:
@@ -14,6 +15,13 @@ ops:
                                       -> ok accept il=<b> off=<n> ts=<n> [tuple=…] prev=… | err <kind> prev=… | panic …
   cli.wrap il= att=ok:<tag>:<inIL>,err:<kind>,…   -> ok <tag> | err <kind>
   cli.badlocal tr= iplen=             -> err addr
+  cli.ntsdesth tr= hist=<parsed>:<port>;…  reach=   -> as cli.ntsdest, for the LAST call of a history of calls on one client
+  cli.xchg tr=ip|scion il= nts= dl=<deadline ns|-> filt= (server= | key= ria= rhost= lia= lhost=) ref= prev= rd=[clock readings] tx=none|<ns>.<id> ev=…
+                                      -> as cli.exch, followed by rd=<readings consumed>; clock-underrun
+                                         (one exchange as a function of the clock readings the code takes: no kernel
+                                          timestamps are assumed; events d:…:<kernel rx|->:… / s:…:<kernel rx|->:… / e / f)
+  cli.wrapx tr=ip|scion il= att=<l|c|x>/<attempt>,… [coll=<b>]
+                                      -> ok <tag> reqs=<n> | err <kind> reqs=<n>   (attempt wrappers over the context state per attempt; reqs = requests that left the host)
   cli.ntsdest tr=ip|scion|scion-local parsed=x<16 bytes>|- port= reach=
                                       -> ok sent=x<ip>:<port>|- res=fail   (destination of the NTS-protected request)
 -/
@@ -179,6 +187,62 @@ def parseAttempt? (s : String) : Option Attempt :=
   | ["err", k] => (parseErr? k).map .err
   | _ => none
 
+
+/-! ### ops over Model/ClientFlow.lean -/
+
+/-- `-` or a kernel timestamp -/
+def parseKrx? (s : String) : Option (Option Int) := parseOptInt? s
+
+def parseXEvIP? (s : String) : Option (XEvent IpDgram) :=
+  match s.splitOn ":" with
+  | ["e"] => some .readErr
+  | ["f"] => some .badFlags
+  | ["d", src, len, lvm, st, org, rx, tx, krx, dec, uid, opn] =>
+    match src.toNat?, parsePayload? [len, lvm, st, org, rx, tx, dec, uid, opn], parseKrx? krx with
+    | some src, some p, some krx => some (.dgram ⟨src, p⟩ krx)
+    | _, _, _ => none
+  | _ => none
+
+def parseXEvSCION? (s : String) : Option (XEvent ScionDgram) :=
+  match s.splitOn ":" with
+  | ["e"] => some .readErr
+  | ["f"] => some .badFlags
+  | ["s", ok, layers, bl, ul, sia, sh, dia, dh, ts, au, len, lvm, st, org, rx, tx, krx, dec, uid, opn] =>
+    match parseKrx? krx,
+          parseEvSCION? (":".intercalate ["s", ok, layers, bl, ul, sia, sh, dia, dh, ts, au, len, lvm, st, org, rx, tx, "0", "true", dec, uid, opn]) with
+    | some krx, some (.dgram d _ _) => some (.dgram d krx)
+    | _, _ => none
+  | _ => none
+
+def parseXEvs? {D : Type} (f : String → Option (XEvent D)) (s : String) : Option (List (XEvent D)) :=
+  if s = "-" then some [] else (s.splitOn ";").mapM f
+
+/-- `none` or `<ns>.<id>` -/
+def parseTxStamp? (s : String) : Option TxStamp :=
+  if s = "none" then some .failed else
+  match s.splitOn "." with
+  | [t, id] =>
+    match parseInt? t, id.toNat? with
+    | some t, some id => some (.kernel t id)
+    | _, _ => none
+  | _ => none
+
+def fmtXResult (cfg : Cfg) (filt : Option Int) (r : Option XResult) : String :=
+  match r with
+  | none => "clock-underrun"
+  | some x => s!"{fmtOutcome cfg filt x.out x.prev} rd={x.used} pre={TxFallback.readingsBeforeSend .preSend}"
+
+/-- `<l|c|x>/<attempt>` -/
+def parseAttemptIn? (s : String) : Option AttemptIn :=
+  match s.splitOn "/" with
+  | [c, a] =>
+    let ctx : Option CtxAt := match c with
+      | "l" => some .live | "c" => some .cancelled | "x" => some .expired | _ => none
+    match ctx, (if a = "-" then some (Attempt.err .other) else parseAttempt? a) with
+    | some ctx, some a => some ⟨ctx, a⟩
+    | _, _ => none
+  | _ => none
+
 def kvs (toks : List String) (keys : List String) : Option (List String) := keys.mapM (kv? toks)
 
 def step (_ : Unit) (toks : List String) : Unit × String := Id.run do
@@ -243,6 +307,52 @@ def step (_ : Unit) (toks : List String) : Unit × String := Id.run do
           | _, _, _, _ => return ((), "bad-op")
       | _, _, _, _, _, _, _, _, _ => return ((), "bad-op")
     | _ => return ((), "bad-op")
+  | "cli.xchg" :: rest =>
+    match kvs rest ["tr", "il", "dl", "filt", "ref", "prev", "rd", "tx", "ev", "nts"] with
+    | some [tr, il, dl, filt, ref, prev, rd, tx, ev, nts] =>
+      match parseTr? tr, parseBool? il, parseOptInt? dl, parseOptInt? filt, refName ref, parsePrev? prev,
+            parseIntList? rd, parseTxStamp? tx, parseBool? nts with
+      | some tr, some il, some dl, some filt, some ref, some prev, some rd, some tx, some nts =>
+        if ref = "" then return ((), "bad-op")
+        let cfg : Cfg := ⟨tr, il, nts, dl.isSome⟩
+        match tr with
+        | .ip =>
+          if rest.length ≠ 11 then return ((), "bad-op")
+          match (kv? rest "server").bind (·.toNat?), parseXEvs? parseXEvIP? ev with
+          | some server, some evs =>
+            return ((), fmtXResult cfg filt (xExchangeIP .preSend cfg server prev ref dl tx rd evs))
+          | _, _ => return ((), "bad-op")
+        | .scion =>
+          if rest.length ≠ 15 then return ((), "bad-op")
+          match (kvs rest ["ria", "lia"]).bind (·.mapM (·.toNat?)),
+                (kvs rest ["rhost", "lhost"]).bind (·.mapM parseIPBytes?),
+                (kv? rest "key").bind parseBool?, parseXEvs? parseXEvSCION? ev with
+          | some [ria, lia], some [rhost, lhost], some key, some evs =>
+            return ((), fmtXResult cfg filt (xExchangeSCION .preSend cfg ⟨ria, rhost, lia, lhost, key⟩ prev ref dl tx rd evs))
+          | _, _, _, _ => return ((), "bad-op")
+      | _, _, _, _, _, _, _, _, _ => return ((), "bad-op")
+    | _ => return ((), "bad-op")
+  | "cli.wrapx" :: rest =>
+    match (kv? rest "tr").bind parseTr?, (kv? rest "il").bind parseBool?,
+          (kv? rest "att").bind (fun s => (s.splitOn ",").mapM parseAttemptIn?) with
+    | some tr, some il, some att =>
+      if att.length < attempts il then return ((), "bad-op")
+      let coll := ((kv? rest "coll").bind parseBool?).getD true
+      if rest.length ≠ (if (kv? rest "coll").isSome then 4 else 3) then return ((), "bad-op")
+      let g := (wrapCtx false il att).1
+      -- requests that leave the host: exchanges started with a deadline that has not passed
+      let reqs := ((att.take (wrapCtx false il att).2).filter (fun a => a.ctx != .expired)).length
+      match tr with
+      | .ip =>
+        match g.err with
+        | none => return ((), s!"ok {g.ts} reqs={reqs}")
+        | some e => return ((), s!"err {errName e} reqs={reqs}")
+      | .scion =>
+        let s := scionWrap1 coll g
+        match s.err with
+        | none => return ((), s!"ok {s.ts} reqs={reqs}")
+        | some _ => return ((), s!"err nomeas reqs={reqs}")
+    | _, _, _ => return ((), "bad-op")
   | ["cli.wrap", il, att] =>
     match (kv? [il] "il").bind parseBool?, (kv? [att] "att").bind (fun s => (s.splitOn ",").mapM parseAttempt?) with
     | some il, some att =>
@@ -273,6 +383,34 @@ def step (_ : Unit) (toks : List String) : Unit × String := Id.run do
           if reach then return ((), s!"ok sent=x{toHex ip}:{p} res=fail") else return ((), "ok sent=- res=fail")
         | none => return ((), "ok sent=- res=fail")
     | _, _, _, _ => return ((), "bad-op")
+  | ["cli.ntsdesth", tr, hist, reach] =>
+    -- destination of the LAST of a history of calls on one client / one address object
+    match kv? [tr] "tr", kv? [hist] "hist", (kv? [reach] "reach").bind parseBool? with
+    | some tr, some hist, some reach =>
+      if tr ≠ "ip" ∧ tr ≠ "scion" ∧ tr ≠ "scion-local" then return ((), "bad-op")
+      let one (s : String) : Option KxDest :=
+        match s.splitOn ":" with
+        | [parsed, port] =>
+          match port.toNat? with
+          | some port =>
+            if port ≥ 65536 then none
+            else if parsed = "-" then some ⟨"", none, port⟩
+            else if parsed.startsWith "x" then
+              match parseHex? (parsed.drop 1).toString with
+              | some b => if b.length = 16 then some ⟨"", some b, port⟩ else none
+              | none => none
+            else none
+          | none => none
+        | _ => none
+      match (hist.splitOn ";").mapM one with
+      | none => return ((), "bad-op")
+      | some [] => return ((), "bad-op")
+      | some kxs =>
+        match (destHistory ([], 0) kxs).getLast? with
+        | some (some (ip, p)) =>
+          if reach then return ((), s!"ok sent=x{toHex ip}:{p} res=fail") else return ((), "ok sent=- res=fail")
+        | _ => return ((), "ok sent=- res=fail")
+    | _, _, _ => return ((), "bad-op")
   | ["cli.badlocal", tr, iplen] =>
     match (kv? [tr] "tr").bind parseTr?, (kv? [iplen] "iplen").bind (·.toNat?) with
     | some _, some n =>
